@@ -191,7 +191,7 @@ RULES.update({
         "exhaustive": {"quick": True, "thorough": True},
     },
     "C16": {
-        "rule": "N identical calls (64k quick / 1.6M thorough) of encaps, PKE encrypt, header generate, keygen, rekey on 4 "
+        "rule": "N identical calls (64k quick / 400k thorough per configuration) of encaps, PKE encrypt, header generate, keygen, rekey on 4 "
                 "instances each shared by 4 threads; every value that must be fresh goes to a hash set (secrets, tags, traps, "
                 "F, ML-KEM ciphertexts, PKE/header nonces, user ids, published H/ek after each rekey); nonce bit positions must "
                 "all vary; the caller's header secret must not decrypt the metadata. Distinct non-trivial = (kind of value, order "
